@@ -10,7 +10,7 @@ TR = LS + "chain::tracker::ChainTracker::<L>"
 VAL = LS + "policy::validator::Validator"
 
 CLAIM = {
-    "text": "Decides on all MIR paths of ChainTracker::add_block / remove_block: (R13.1) every mutation of the tracked "
+    "text": "Decides on all MIR paths of ChainTracker::add_block / remove_block: (R13.4) remove_block compares both the supplied previous block header and the supplied previous filter header with the remembered ones and refuses a mismatch; (R13.1) every mutation of the tracked "
             "state (headers, tip, height, listeners/ListenSlot, monitor State; found as field writes, &mut borrows "
             "handed to callees, and calls into mutating callees by transitive summaries) is dominated by Ok of "
             "maybe_finish_decoding_block and Ok of validate_block and cannot reach a refusal exit (failure "
@@ -40,6 +40,7 @@ def run(ctx):
     r131(ctx)
     r132(ctx)
     r133(ctx)
+    r134(ctx)
 
 
 def r131(ctx):
@@ -237,3 +238,28 @@ def r133(ctx):
     for im, dd in ctx.prog.impl_of.get(d.d.id, []):
         ok = dd.id == d.d.id or "OnchainValidator" in dd.name or "null_validator" in dd.name
         ctx.ob("R13.3", ok, f"{dd.name}/overrides/validate_block", f"`{dd.name}` overrides block validation", where=dd.loc)
+
+
+def r134(ctx):
+    ctx.rule("R13.4", "remove_block: both halves of the caller-supplied previous headers (block header and filter header) "
+                      "are compared with the remembered ones, and a mismatch of either is refused before anything changes")
+    p = ctx.prog
+    b = p.fn(LS + "chain::tracker::ChainTracker::<L>::remove_block")
+    fv = fnview(ctx, b)
+    succ = R.success_blocks(fv)
+    for half, name in (("0", "block header"), ("1", "filter header")):
+        def both(a, c, h=half):
+            # the halves themselves, or (for the block header) their block hashes, which commit to the whole header
+            strip = lambda x: x[len("bitcoin::block::Header::block_hash("):-1] if x.startswith("bitcoin::block::Header::block_hash(") else x
+            a2, c2 = (strip(a), strip(c)) if h == "0" else (a, c)
+            return a2.endswith(f"supplied_prev_headers.{h}") and "headers[" in c2 and c2.endswith(f".{h}")
+        sites = R.eq_sites(fv, both)
+        ctx.ob("R13.4", len(sites) >= 1, f"{b.name}/prev-{name.replace(' ', '-')}/compared",
+               f"remove_block no longer compares the supplied previous {name} with the remembered one: a request can retreat the tip "
+               f"onto a header the tracker never validated" + (" (a blank filter header then also disables proof checking)" if half == "1" else ""),
+               where=f"{b.file}:{b.line}", sample=f"supplied_prev_headers.{half} vs self.headers[0].{half}")
+        for bi, line, eqe, dife, r0, r1 in sites:
+            bad = [sb for sb, ln in succ if any(sb in fv.reach(v) for (_, v) in dife)]
+            ctx.ob("R13.4", bool(dife) and not bad, f"{b.name}/prev-{name.replace(' ', '-')}/mismatch-refused",
+                   f"remove_block can succeed although the supplied previous {name} differs from the remembered one",
+                   where=f"{b.file}:{line}", sample="!= => refused")
